@@ -156,7 +156,7 @@ pub mod lr {
     pub mod parser {
         use crate::shadow::*;
         include!("../gen/rt/lr_parser.rs");
-        include!("lr_step.rs");
+        include!("lr_run.rs");
     }
 }
 
